@@ -227,12 +227,12 @@ def parse_stmt(l):
     m = re.match(r'^discriminant\((.*)\) = (\d+)$', l)
     if m: return ('setdiscr', parse_place(m.group(1)), int(m.group(2)))
     # call with or without destination
-    m = re.match(r'^(.*?) = (.*)\) -> (\[.*\]|unwind .*)$', l)
+    m = re.match(r'^(.*?) = (.*)\) -> (\[.*\]|unwind .*|bb\d+)$', l)
     if m and ' = ' not in m.group(1):
         dest = parse_place(m.group(1)); callee, args = split_call(m.group(2) + ')')
         tg = parse_targets(m.group(3)) if m.group(3).startswith('[') else {}
         return ('call', dest, callee, args, tg)
-    m = re.match(r'^(.*)\) -> (\[.*\]|unwind .*)$', l)
+    m = re.match(r'^(.*)\) -> (\[.*\]|unwind .*|bb\d+)$', l)
     if m and ' = ' not in l.split('(')[0]:
         callee, args = split_call(m.group(1) + ')')
         tg = parse_targets(m.group(2)) if m.group(2).startswith('[') else {}
